@@ -32,12 +32,13 @@ def gen_cases(tier, seed):
     off = 0.731 * (seed % 8)
     cases = []
     pitches = list(PITCHES)
+    pitches += [-85.0, -45.0, -10.0, -1e-6, 1e-6, 10.0, 45.0, 85.0, 89.99]
     if tier == 'thorough':
-        pitches += [-85.0, -45.0, -10.0, -1e-6, 1e-6, 10.0, 45.0, 85.0, 89.99]
+        pitches += list(np.arange(-87.5, 90.0, 5.0))
     for p in pitches:
         cases.append(dict(part='euler', pitch=p, offset=0.0))
         cases.append(dict(part='euler', pitch=p, offset=off + 0.5))      # generic (non-special) angles
-    per_dec = 4 if tier == 'quick' else 16
+    per_dec = 16 if tier == 'quick' else 64
     for d in DIRS:
         cases.append(dict(part='rotvec', dir=d, per_decade=per_dec))
     return cases
@@ -197,4 +198,5 @@ def finalize(cases, results, tier):
     pts = sum(r.get('points', 0) for r in results)
     return dict(evaluations=pts, distinct_nontrivial=pts,
                 axes=dict(roll_heading=ROLLS, pitch=PITCHES, rotvec_dirs=list(DIRS),
-                          rotvec_norms='log grid 1e-12..pi + sqrt(1e-6)(1 +- {0,1,2,8,64} eps) + {0, 3, pi}'))
+                          rotvec_norms='log grid 1e-12..pi + sqrt(1e-6)(1 +- {0,1,2,8,64} eps) + {0, 3, pi}'),
+                tier_bound='quick: 16 norms per decade, special + 9 generic pitches; thorough: 64 per decade, pitch every 5 deg in addition')
